@@ -2,7 +2,7 @@
 # usage: trymut.sh <name> <patch-file> <tier> <PROP> [<PROP>...]
 # Applies a seeded change to a scratch worktree of /repo (never to /repo itself), runs the given
 # checks against it through a shadow driver, prints one verdict line per check, cleans up.
-name=$1; patch=$2; tier=$3; shift 3
+name=$1; patch=$(realpath $2); tier=$3; shift 3
 wt=/tmp/mut/$name
 mkdir -p /tmp/mut
 git -C /repo worktree remove --force $wt >/dev/null 2>&1
